@@ -4,7 +4,7 @@ from props.common import *
 ASSUMPTIONS = ['HasCompat (toNFKC(cp) != cp) is computed by the implementation with unicode-normalization (Unicode 17); its graph is dumped on every run and enters the RFC-side theorem as data; the IANA registry comparison is independent of it']
 TRUSTED = ['IANA precis-tables-6.3.0.csv and the Unicode 6.3.0 files in /repo/precis-core/resources as parsed by tools/ucd_spec.py', 'transcription of RFC 8264 sections 8-9 in lean/Precis/Spec/Rfc8264.lean']
 FACT_MODULES = ['Precis.Facts.Core', 'Precis.Facts.SpecSF', 'Precis.Facts.IanaDomain', 'Precis.Facts.DpIanaId', 'Precis.Facts.DpIanaFf',
-                'Precis.Facts.DpRfcId', 'Precis.Facts.DpRfcFf', 'Precis.Facts.DpMiscId', 'Precis.Facts.DpMiscFf', 'Precis.Facts.IdVsFree', 'Precis.Facts.HasCompatCode']
+                'Precis.Facts.DpRfcId', 'Precis.Facts.DpRfcFf', 'Precis.Facts.DpMiscId', 'Precis.Facts.DpMiscFf', 'Precis.Facts.IdVsFree', 'Precis.Facts.HasCompatCode', 'Precis.Facts.SrcTie']
 PRED = ['is_letter_digit', 'is_join_control', 'is_old_hangul_jamo', 'is_unassigned', 'is_ascii7', 'is_control',
         'is_precis_ignorable_property', 'is_space', 'is_symbol', 'is_punctuation', 'is_other_letter_digit']
 
